@@ -76,6 +76,8 @@ pub enum Action {
     Pick(usize),
     /// The kernel accepts / delivers `k` bytes for the outstanding request.
     Answer(usize),
+    /// The kernel fails the outstanding request with EIO.
+    Fail,
 }
 
 pub struct C10World {
@@ -95,6 +97,8 @@ pub struct C10World {
     done: Option<Seen>,
     eof: bool,
     zero_answered: bool,
+    /// The kernel failed a request with this errno.
+    failed: Option<i32>,
     first_opcode: Option<u8>,
     ptrs: Vec<usize>,
     obs: u64,
@@ -194,6 +198,7 @@ impl C10World {
             done: None,
             eof: false,
             zero_answered: false,
+            failed: None,
             first_opcode: None,
             ptrs: Vec::new(),
             obs: 0,
@@ -476,12 +481,29 @@ impl C10World {
         self.drive();
     }
 
+    fn fail(&mut self) {
+        let (serial, _) = self.outstanding().expect("no outstanding request");
+        simk::with(|kk| kk.complete(serial, Out::Res(-libc::EIO)));
+        if simk::with(|kk| kk.req(serial).awaiting_notif) {
+            simk::with(|kk| kk.complete(serial, Out::Notif));
+        }
+        self.failed = Some(libc::EIO);
+        self.drive();
+    }
+
     fn judge_end(&mut self) {
         let c = self.case.clone().unwrap();
         let Some(Seen::Ready(res)) = self.done.clone() else {
             self.bad("no-result", format!("future ended with {:?}", self.done));
             return;
         };
+        if let Some(e) = self.failed {
+            // A real error ends the operation with that error, whatever was transferred before.
+            if res != format!("err:{e}") {
+                self.bad("error-not-reported", format!("the kernel failed request #{} with errno {e} after {} bytes, the future returned {res}", self.requests, self.accepted));
+            }
+            return;
+        }
         if c.api.is_write() {
             let total = self.stream.len();
             if self.zero_answered {
@@ -552,6 +574,7 @@ impl World for C10World {
                 // Everything first, then shorter, then zero.
                 let mut v: Vec<(Action, u32)> = (1..=max).rev().map(|k| (Action::Answer(k), 0)).collect();
                 v.push((Action::Answer(0), 0));
+                v.push((Action::Fail, 0));
                 v
             }
         }
@@ -564,6 +587,7 @@ impl World for C10World {
                 self.start(c);
             }
             Action::Answer(k) => self.answer(*k),
+            Action::Fail => self.fail(),
         }
     }
 
